@@ -145,8 +145,14 @@ func VH_C20_capacity(kind, op1, op2, op3 int) {
 		case 2: // remove
 			env.loc.RemFact(env.ctx, id)
 		case 3:
+		case 4: // add a fact that is to be deleted with another id (which may not exist)
+			_, err := env.loc.AddFact(env.ctx, id, Map{"a": "d", "deleteWith": []interface{}{ids[vchoose(3)]}})
+			if err != nil {
+				vassert(env.state.Count(env.ctx) == before, "refused-add-leaves-count")
+				vassert(before >= max, "add-refused-only-at-capacity")
+			}
 		}
-		if op == 0 || op == 1 {
+		if op == 0 || op == 1 || op == 4 {
 			n := env.state.Count(env.ctx)
 			// never above the maximum after a public add — except that it was already
 			// above (the maximum was lowered), which cannot happen here
